@@ -144,6 +144,20 @@ class Env:
                 cases = [(wrap_literals(self.expr(c)), wrap_literals(self.expr(v))) for c, v in j["case"]]
                 d = j.get("default")
                 return CaseExpr(cases, wrap_literals(self.expr(d)) if d is not None else None)
+            if "mapx" in j:
+                from pydiverse.transform._internal.tree.col_expr import wrap_literals
+
+                mapping = {}
+                for ks, v in j["pairs"]:
+                    kk = tuple(self.expr(k) for k in ks)
+                    mapping[kk if len(kk) > 1 else kk[0]] = self.expr(v)
+                d = j.get("default")
+                dv = None
+                if d is not None:
+                    dv = self.expr(d)
+                    if dv is None:
+                        dv = pdt.lit(None)
+                return wrap_literals(self.expr(j["mapx"])).map(mapping, default=dv)
             if "cast" in j:
                 from pydiverse.transform._internal.tree.col_expr import wrap_literals
 
